@@ -16,33 +16,41 @@ def groupsGiven (pi : PipeInst) : Bool :=
 def nameGiven (o : Option String) : Bool :=
   match o with | some s => s != "" | none => false
 
-/-- closed form of the defaulting rule -/
-theorem effectiveGroups_eq (pi : PipeInst) :
+/-- closed form of the defaulting rule (`groupsBad = false`: `groups` is a list of names or absent) -/
+theorem effectiveGroups_eq (pi : PipeInst) (hgb : pi.groupsBad = false) :
     effectiveGroups pi =
       if groupsGiven pi then (pi.groups.getD [], pi.success, pi.failure)
       else if !nameGiven pi.success && !nameGiven pi.failure then (["steps"], some "on_success", some "on_failure")
       else (["steps"], pi.success, pi.failure) := by
-  obtain ⟨name, groups, success, failure, pin, ca⟩ := pi
+  obtain ⟨name, groups, success, failure, pin, ca, gb⟩ := pi
+  simp only at hgb
+  subst hgb
   unfold effectiveGroups groupsGiven nameGiven
   rcases groups with _ | ⟨_ | ⟨g, gs⟩⟩ <;> first | rfl | (simp; done)
 
-theorem effectiveGroups_given (pi : PipeInst) (g : String) (gs : List String) (h : pi.groups = some (g :: gs)) :
-    effectiveGroups pi = (g :: gs, pi.success, pi.failure) := by
-  rw [effectiveGroups_eq]; simp [groupsGiven, h]
+/-- `groups` truthy but no list of names (`groups: 5`): nothing is defaulted. -/
+theorem effectiveGroups_bad (pi : PipeInst) (hgb : pi.groupsBad = true) :
+    effectiveGroups pi = ([], pi.success, pi.failure) := by
+  unfold effectiveGroups; simp [hgb]
 
-theorem effectiveGroups_default_all (pi : PipeInst) (hg : groupsGiven pi = false)
+theorem effectiveGroups_given (pi : PipeInst) (hgb : pi.groupsBad = false) (g : String) (gs : List String)
+    (h : pi.groups = some (g :: gs)) :
+    effectiveGroups pi = (g :: gs, pi.success, pi.failure) := by
+  rw [effectiveGroups_eq pi hgb]; simp [groupsGiven, h]
+
+theorem effectiveGroups_default_all (pi : PipeInst) (hgb : pi.groupsBad = false) (hg : groupsGiven pi = false)
     (hs : nameGiven pi.success = false) (hf : nameGiven pi.failure = false) :
     effectiveGroups pi = (["steps"], some "on_success", some "on_failure") := by
-  rw [effectiveGroups_eq]; simp [hg, hs, hf]
+  rw [effectiveGroups_eq pi hgb]; simp [hg, hs, hf]
 
-theorem effectiveGroups_default_groups_only (pi : PipeInst) (hg : groupsGiven pi = false)
+theorem effectiveGroups_default_groups_only (pi : PipeInst) (hgb : pi.groupsBad = false) (hg : groupsGiven pi = false)
     (hsf : nameGiven pi.success = true ∨ nameGiven pi.failure = true) :
     effectiveGroups pi = (["steps"], pi.success, pi.failure) := by
-  rw [effectiveGroups_eq]
+  rw [effectiveGroups_eq pi hgb]
   rcases hsf with h | h <;> simp [hg, h]
 
-theorem effectiveGroups_nonempty (pi : PipeInst) : (effectiveGroups pi).1 ≠ [] := by
-  rw [effectiveGroups_eq]
+theorem effectiveGroups_nonempty (pi : PipeInst) (hgb : pi.groupsBad = false) : (effectiveGroups pi).1 ≠ [] := by
+  rw [effectiveGroups_eq pi hgb]
   by_cases hg : groupsGiven pi = true
   · rw [if_pos hg]
     unfold groupsGiven at hg
@@ -168,7 +176,7 @@ theorem runRoot_err_iff (fuel : Nat) (prog : Program) (pi : PipeInst) (s s' : St
 /-- an error leaving `_run_pipeline` is the error of the context parser or the error of
     `run_step_groups` — the same exception object — and the stack entry is popped. -/
 theorem runPipeline_err_origin (fuel : Nat) (prog : Program) (pi : PipeInst) (pd : PipeDef) (s s' : St)
-    (e : ExcV) (h : Bool) (hp : prog.find? pi.name = some pd)
+    (e : ExcV) (h : Bool) (hp : prog.find? pi.name = some pd) (hgb : pi.groupsBad = false)
     (hr : runPipeline (fuel + 1) prog pi s = (s', .err e h)) :
     (∃ s1 s2, prepareContext pd pi { s with stack := pi.name :: s.stack } = (s1, .err e h) ∧
         (runFailureGroup fuel prog pi.name (effectiveGroups pi).2.2 s1 = (s2, .ok) ∨
@@ -178,7 +186,7 @@ theorem runPipeline_err_origin (fuel : Nat) (prog : Program) (pi : PipeInst) (pd
         runGroups fuel prog pi.name (effectiveGroups pi).1 (effectiveGroups pi).2.1 (effectiveGroups pi).2.2 s1
           = (s2, .err e h) ∧
         s' = { s2 with stack := s2.stack.drop 1 }) := by
-  rw [runPipeline_eq fuel prog pi pd s hp] at hr
+  rw [runPipeline_eq fuel prog pi pd s hp hgb] at hr
   simp only [] at hr
   generalize hprep : prepareContext pd pi { s with stack := pi.name :: s.stack } = p at hr
   obtain ⟨s1, r⟩ := p
